@@ -48,7 +48,9 @@ def dot_json(src):
     r = subprocess.run(["dot", "-Tdot_json"], input=src.encode(), capture_output=True)
     if r.returncode != 0:
         return None, r.stderr.decode()[:300]
-    return json.loads(r.stdout), None
+    j = json.loads(r.stdout)
+    j["_warnings"] = r.stderr.decode()[:300]
+    return j, None
 
 
 def cells_of(label):
@@ -67,8 +69,12 @@ def observed_graph(j):
         return None, ["root-count"], names
     out_edges = {}
     indeg = {g: 0 for g in objs}
+    if j.get("_warnings", "").strip():
+        problems.append("graphviz-warning")
     for e in j.get("edges", []):
         port = int(e["tailport"][1:]) if "tailport" in e else None
+        if port is not None and f'PORT="p{port}"' not in objs[e["tail"]].get("label", ""):
+            problems.append("edge-from-missing-slot")
         out_edges.setdefault(e["tail"], []).append((port, e.get("label", ""), e["head"]))
         indeg[e["head"]] += 1
     for g, o in objs.items():
@@ -178,6 +184,8 @@ SESSION_CHAINS = [
     {"M": [["X", "p"], ["q"]], "X": [["p", "q"], []]},
     {"M": [["p"]]},
     {"M": [["X", "X"]], "X": [["Y"]], "Y": [["p"], ["q"], []]},
+    {"M": [["X", "p"], ["p", "q"]]},          # the daughter lists of chain 0 as leaves (X has no table here)
+    {"M": [["p", "q"], ["Y"]], "Y": [["p"]]},  # ... and [Y] / [p] in the other role than in chain 2
 ]
 
 
@@ -189,7 +197,8 @@ def session(seq):
         j, err = dot_json(v.to_string())
         if j is None:
             return ("dot-error", err)
-        out.append([o["name"] for o in j["objects"]])
+        tree, problems, _n = observed_graph(j)
+        out.append(([o["name"] for o in j["objects"]], tree, problems))
     return ("ok", out)
 
 
@@ -199,7 +208,12 @@ def check_session(seq):
         return [("rejected-by-graphviz", str(res))]
     fails = []
     seen = {}
-    for gi, names in enumerate(res):
+    for gi, (names, tree, problems) in enumerate(res):
+        exp = expected_graph(chain_dict(SESSION_CHAINS[seq[gi]], "M", {}))
+        for p in problems:
+            fails.append((p + "@session", f"graph {gi} of session {seq}: {p}"))
+        if tree is not None and tree != exp:
+            fails.append(("graph-differs@session", f"graph {gi} of session {seq} (viewers built one after another in one process):\n observed {tree}\n expected {exp}"))
         if len(set(names)) != len(names):
             fails.append(("duplicate-node-names", f"graph {gi} of session {seq} has repeated node names {names}"))
         want = 1 + chains.graph_counts(chains.graph(chain_dict(SESSION_CHAINS[seq[gi]], "M", {})))
